@@ -384,6 +384,16 @@ def sharedmem(ctx):
     pinit = F(ctx, "Parallel.__init__")
     chk = [n_ for n_ in nodes_of_type(pinit, ast.If) if "sharedmem" in unparse(n_.test) and any(isinstance(s, ast.Raise) for s in n_.body)]
     ctx.check(bool(chk) and "supports_sharedmem" in unparse(chk[0].test), chk[0] if chk else pinit, "Parallel.__init__ rejects an explicit backend without shared memory when sharedmem is required")
+    if chk:
+        cmp_ = [c_ for c_ in ast.walk(chk[0].test) if isinstance(c_, ast.Compare) and const_value(c_.comparators[0]) == "sharedmem"]
+        lhs = cmp_[0].left if cmp_ else None
+        ok = lhs is not None and unparse(lhs) == "self._backend_kwargs['require']"
+        if lhs is not None and isinstance(lhs, ast.Name):
+            d_ = _single_defs(pinit, lhs.id)
+            ok = len(d_) == 1 and isinstance(d_[0].value, ast.Call) and call_name(d_[0].value) == "_get_config_param" and dotted(d_[0].value.args[0]) == "require"
+        bk = [a_ for a_ in nodes_of_type(pinit, ast.Assign) if "self._backend_kwargs" in stores_to(a_)]
+        ctx.check(ok, chk[0], "the constraint tested there is the RESOLVED require (explicit > context > default)",
+                  "the shared-memory guard of Parallel.__init__ tests `%s`, not the resolved `require`: an explicit require='sharedmem' (or one from the context) can be missed" % (unparse(lhs) if lhs is not None else None))
 
 
 def hint(ctx):
